@@ -55,8 +55,9 @@ RULE = (
     'two Server objects, register/unregister/notify/one-shot on '
     'NotificationCenter; non-trivial = a run/notify with >=2 registered '
     'actions after a removal. datagram: valid message/bundle (nesting <=3, '
-    'or 20-600 deep) mutated by truncation, bit flips, int32 splices '
+    'or 20-1000 deep) mutated by truncation, bit flips, int32 splices '
     '(-2^31..2^31-1 and near-boundary) into element-size/blob-size fields, '
+    'chopping 1-8 tail bytes, '
     'type-tag overrides with unbalanced brackets, bad UTF-8, inserted/'
     'appended bytes, or raw byte strings; non-trivial = the mutated packet '
     'still starts with "#bundle\\0" or "/" and differs from the valid one. '
@@ -101,8 +102,8 @@ ASSUMPTIONS = [
 ]
 EXHAUSTIVE_SCOPE = (
     'match_enum: patterns "/"+t1..tk, k<=3, t in {a,b,/,*,?,[ab],[!a],[a-b],'
-    '{a,ab},{b,ba}} without empty parts (1010) x all addresses over {a,b,/} '
-    'with <=4 characters after the leading "/" and no empty part (46)')
+    '{a,ab},{b,ba}} without empty parts (900) x all addresses over {a,b,/} '
+    'with <=4 characters after the leading "/" and no empty part (50)')
 
 MANIFEST = {
     'technique': 'model-based property testing of op histories through the '
@@ -225,8 +226,6 @@ def setup(ctx):
     if 'server2' not in G:
         G['server2'] = Server('c18-other', netaddr.NetAddr(
             '127.0.0.1', 57190))
-    init_time = main._init_time
-    G['osc_offset'] = int((Fraction(init_time + 2208988800)) * 2 ** 32)
 
 
 def settle():
@@ -684,7 +683,8 @@ class History:
                 v.fail('stale_function', where + f' ran function generation '
                        f'{gen}, current is {m.gen}')
             if tt is None or tt == 'now':
-                ok = isinstance(time, float) and t0 <= time <= t1
+                # 50 ms slack: the two reads are time.time() based
+                ok = isinstance(time, float) and t0 - .05 <= time <= t1 + .05
                 v.check(ok, 'wrong_args:time', lambda: where + f' time={time}'
                         f' not within reception window [{t0}, {t1}]')
             else:
@@ -992,16 +992,6 @@ def rm_canon(m):
 
 # --- stage: registries ----------------------------------------------------------------
 
-def _order_ok(got, exp, loose):
-    """got/exp: lists of tokens. Same multiset, and the same relative order
-    among tokens not in `loose` (re-added while registered)."""
-    if sorted(map(repr, got)) != sorted(map(repr, exp)):
-        return False
-    g = [x for x in got if x not in loose]
-    e = [x for x in exp if x not in loose]
-    return g == e
-
-
 def run_sysaction(case, v):
     sac = G['sac']
     base = getattr(sac, case['reg'])
@@ -1083,9 +1073,6 @@ def run_sysaction(case, v):
             got = list(calls)
             if len(model) >= 2 and removed:
                 nontrivial = True
-            exp_t = [(e[0], e[2], tuple(sorted(e[3].items()))) for e in model]
-            # identify calls: by action id + args (once-entries carry their
-            # own args)
             ok_multiset = sorted(map(repr, got)) == sorted(map(repr, exp))
             if not ok_multiset:
                 gs = [c[0] for c in got]
@@ -1573,6 +1560,8 @@ def build_datagram(case):
             data[o:o] = bytes.fromhex(mop[2])
         elif name == 'append':
             data += bytes.fromhex(mop[1])
+        elif name == 'chop':
+            data = data[:max(0, n - mop[1])]
     return valid, bytes(data), depth
 
 
@@ -1794,7 +1783,8 @@ def datagram_strategy():
     tagopt = st.one_of(
         st.just({}), st.just({}), st.just({}),
         st.sampled_from(['[', ']', 'i[', '[i', 'i]', '[[i]', '[i]]', 'ii',
-                         'is', 'b', 's', 'f', 'x', 'ihi', 'N', 'id', '][',
+                         'is', 'b', 's', 'f', 'f', 'if', 'ff', 'sf', 'x', 'ihi',
+                         'N', 'id', '][',
                          '[' * 40, '[' * 40 + ']' * 40]).map(
             lambda t: {'tags': t}))
     msg = st.tuples(st.just('msg'), addr, args, tagopt).map(list)
@@ -1805,7 +1795,7 @@ def datagram_strategy():
         max_leaves=5)
     bundle = st.tuples(st.just('bundle'), tt,
                        st.lists(packet, min_size=1, max_size=3)).map(list)
-    deep = st.tuples(st.just('deep'), st.sampled_from([20, 100, 300, 600]),
+    deep = st.tuples(st.just('deep'), st.sampled_from([20, 20, 100, 100, 300, 600, 1000]),
                      msg).map(list)
     raw = st.one_of(
         st.binary(max_size=48),
@@ -1834,6 +1824,7 @@ def datagram_strategy():
                   st.binary(min_size=1, max_size=5).map(bytes.hex)),
         st.tuples(st.just('append'),
                   st.binary(min_size=1, max_size=8).map(bytes.hex)),
+        st.tuples(st.just('chop'), st.integers(1, 8)),
     ).map(list)
     return st.fixed_dictionaries({
         'base': base,
@@ -1957,6 +1948,10 @@ def classify_known(stage, case, viol):
             def grp(d):
                 if skipped and d.startswith('truncated_'):
                     return 'nonconforming_message_accepted'
+                # get_string strips every NUL of the padded chunk, so
+                # non-zero padding bytes become part of the text
+                if d == 'bad_utf8' and 'nonzero_padding' in devs:
+                    return 'nonconforming_message_accepted'
                 return DEV2GROUP.get(d)
             if dev in devs and all(grp(d) in known for d in devs):
                 return grp(dev)
@@ -1966,14 +1961,14 @@ def classify_known(stage, case, viol):
 
 def stages(ctx):
     return [
-        Stage('match', run_match, rm.pair_strategy(), quick=1500,
+        Stage('match', run_match, rm.pair_strategy(), quick=1800,
               thorough=12000),
         Stage('match_enum', run_match_enum, cases=enum_cases,
               exhaustive=True),
-        Stage('history', run_history, history_strategy(), quick=250,
-              thorough=2500),
-        Stage('registries', run_registry, registry_strategy(), quick=400,
+        Stage('history', run_history, history_strategy(), quick=500,
+              thorough=3000),
+        Stage('registries', run_registry, registry_strategy(), quick=500,
               thorough=4000),
-        Stage('datagram', run_datagram, datagram_strategy(), quick=1200,
+        Stage('datagram', run_datagram, datagram_strategy(), quick=1800,
               thorough=12000),
     ]
